@@ -20,7 +20,13 @@ class Gen:
     def cp(self):
         r = self.r
         k = r.random()
-        if k < 0.3:
+        if k < 0.06:
+            # code points whose low byte (or low 16 bits) is a character that matters to the scanner: a test that looks
+            # at a truncated unit takes them for quotes, backslashes, brackets, control characters, digits or hex letters
+            c = r.choice([0x0122, 0x015C, 0x012F, 0x015B, 0x015D, 0x017B, 0x017D, 0x012C, 0x013A, 0x0120, 0x0109, 0x010A,
+                          0x010D, 0x0100, 0x011F, 0x0130, 0x0439, 0x0141, 0x0166, 0x0175, 0x4E22, 0x4E5C, 0x10022, 0x1005C,
+                          0x1F600, 0x10000, 0x2005B])
+        elif k < 0.3:
             c = r.randint(0x20, 0x7E)
         elif k < 0.5:
             c = r.randint(0x80, 0x7FF)
@@ -41,6 +47,10 @@ class Gen:
         r = self.r
         out = []
         n = 0 if r.random() < 0.1 else r.randint(1, 8)
+        if r.random() < 0.02:
+            # long strings (with escapes): scratch buffers grow past their first capacity classes
+            n = r.choice([130, 255, 256, 257, 300, 515, 1030])
+            self.stats["long_strings"] = self.stats.get("long_strings", 0) + 1
         for _ in range(n):
             k = r.randint(0, 12)
             if k == 0:
